@@ -282,7 +282,7 @@ Qed.
 Definition opt_bucket (m : fmap) (b : list rule) : list rule :=
   let uniq := filter (fun f => Nat.eqb (occurrences m (rid f)) 1) b in
   let shared := filter (fun f => negb (Nat.eqb (occurrences m (rid f)) 1)) b in
-  (if Nat.ltb 1 (length uniq) then optimize uniq else uniq) ++ shared.
+  sort_by_id ((if Nat.ltb 1 (length uniq) then optimize uniq else uniq) ++ shared).
 
 Lemma bucket_fl_optimize_eq m k : bucket (fl_optimize m) k = opt_bucket m (bucket m k).
 Proof.
@@ -294,7 +294,7 @@ Qed.
 Lemma bucket_fl_optimize m k :
   exists uniq shared,
     (forall x, In x (bucket m k) <-> In x uniq \/ In x shared) /\
-    (bucket (fl_optimize m) k = (if Nat.ltb 1 (length uniq) then optimize uniq else uniq) ++ shared).
+    (bucket (fl_optimize m) k = sort_by_id ((if Nat.ltb 1 (length uniq) then optimize uniq else uniq) ++ shared)).
 Proof.
   rewrite bucket_fl_optimize_eq. unfold opt_bucket. eexists _, _. split; [|reflexivity].
   intros x. rewrite !filter_In.
@@ -307,6 +307,7 @@ Proof.
   intros Hwf. destruct (bucket_fl_optimize m k) as (uniq & shared & Hmem & ->).
   assert (Hwu : forallb wfp uniq = true).
   { apply forallb_forall. intros x Hx. rewrite forallb_forall in Hwf. apply Hwf. apply Hmem. left. exact Hx. }
+  rewrite (existsb_mem_ext hitb _ _ (sort_by_id_in _)).
   rewrite existsb_app.
   assert (E : existsb hitb (if Nat.ltb 1 (length uniq) then optimize uniq else uniq) = existsb hitb uniq).
   { destruct (Nat.ltb 1 (length uniq)); [apply optimize_exists; exact Hwu|reflexivity]. }
@@ -319,7 +320,7 @@ Proof.
   intros Hwf. destruct (bucket_fl_optimize m k) as (uniq & shared & Hmem & ->).
   assert (Hwu : forallb wfp uniq = true).
   { apply forallb_forall. intros y Hy. rewrite forallb_forall in Hwf. apply Hwf. apply Hmem. left. exact Hy. }
-  rewrite in_app_iff. intros [H|H].
+  rewrite sort_by_id_in. rewrite in_app_iff. intros [H|H].
   - destruct (Nat.ltb 1 (length uniq)).
     + destruct (optimize_mask uniq x Hwu H) as (y & Hy & E). exists y. split; [apply Hmem; left; exact Hy|exact E].
     + exists x. split; [apply Hmem; left; exact H|auto].
@@ -475,7 +476,7 @@ Lemma bucket_unselectable m k x :
   (forall f, In f (bucket m k) -> opt_select f = false) ->
   (In x (bucket (fl_optimize m) k) <-> In x (bucket m k)).
 Proof.
-  intros H. rewrite bucket_fl_optimize_eq. unfold opt_bucket. rewrite in_app_iff, !filter_In.
+  intros H. rewrite bucket_fl_optimize_eq. unfold opt_bucket. rewrite sort_by_id_in, in_app_iff, !filter_In.
   set (u := filter (fun f => Nat.eqb (occurrences m (rid f)) 1) (bucket m k)).
   assert (Hu : forall f, In f u -> opt_select f = false).
   { intros f Hf. apply H. unfold u in Hf. apply filter_In in Hf. tauto. }
